@@ -151,6 +151,16 @@ let handle toks =
       let rec drop n l = if n = 0 then l else match l with [] -> [] | _ :: t -> drop (n-1) t in
       let a = take k bs and b = drop k bs in
       Printf.sprintf "OK %s" (hex_of_n (Util_ext.crc32_update (Util_ext.crc32 a) b))
+  | ["crcchain"; cuts; data] ->
+      let bs = bytes_of_hex data in
+      let n = List.length bs in
+      let cs = if cuts = "-" then [] else List.map int_of_string (String.split_on_char ',' cuts) in
+      let rec take n l = if n = 0 then [] else match l with [] -> [] | x :: t -> x :: take (n-1) t in
+      let rec drop n l = if n = 0 then l else match l with [] -> [] | _ :: t -> drop (n-1) t in
+      let rec pieces prev cs = match cs with
+        | [] -> [take (n - prev) (drop prev bs)]
+        | c :: t -> let c = max prev (min c n) in take (c - prev) (drop prev bs) :: pieces c t in
+      Printf.sprintf "OK %s" (hex_of_n (List.fold_left Util_ext.crc32_update (n_of_int 0) (pieces 0 cs)))
   | ["pagecrc"; verify; has; stored; data] ->
       let b = Util_ext.page_crc_ok (verify = "1") (has = "1") (n_of_hex stored) (bytes_of_hex data) in
       if b then "OK accept" else "OK reject"
